@@ -51,13 +51,20 @@ def run(ck):
     #    in the thorough tier), second word present exactly when the table says so, execution advances pc by the decoded length
     from props import isa_common
     isa_common.generator_clause(ck, parts=None if ck.thorough else (0, 4, 8, 12), tag='c02gen')
+    # 5. one more consumer: the repository's dsp1_reader walks a program segment with Disassembler::NeedExpansion; its listing of
+    #    random firmware images (assembled by the repository's makedsp1) must be the instruction stream Dsp1.tla derives with
+    #    the frozen decode table: one entry per instruction, the second word exactly when the form needs one, also at segment ends
+    from props import c05
+    c05.dsp1_clause(ck, 8, ck.pick(30, 300), tag='dsp1c02')
     ck.assumptions += ['TeakDecodeTable.tla was transcribed once from the pinned decoder.h and is frozen in /verif',
                        'TLC, CommunityModules (Bitwise, Json, IOUtils) and g++ are trusted']
 
 
 def replay(ck, path):
     p = path.split('#')[0]
-    if os.path.basename(p).startswith(('exp_', 'c02gen_')):
+    if os.path.basename(p).startswith('dsp1'):
+        ck.validate_traces('Dsp1Trace', 'Trace_Dsp1.cfg', [p], jvm=['-Xss256m'], sig_prefix='dsp1')
+    elif os.path.basename(p).startswith(('exp_', 'c02gen_')):
         ck.validate_traces('IsaTrace', 'Trace_Isa.cfg', [p], sig_prefix='exec')
     else:
         ck.validate_traces('DecodeTrace', 'Trace_Decode.cfg', [p])
